@@ -14,7 +14,7 @@ What a run does (DESIGN.md §3/§4):
      failing-input search; VIOLATION line with a replay file; `no-failing-input-found` when the search
      finds no concrete input.
 """
-import argparse, fcntl, hashlib, json, os, re, resource, shutil, subprocess, sys, time
+import argparse, fcntl, glob, hashlib, json, os, re, resource, shutil, subprocess, sys, time
 
 VERIF = os.path.dirname(os.path.dirname(os.path.abspath(__file__)))
 REPO = os.environ.get("VERIF_REPO", "/repo")
@@ -122,7 +122,52 @@ def build_tools(ctx):
         ctx.violation("build", "harness does not compile against the current tree (hooks on)",
                       {"output": out[-3000:], "names": "go build -tags verif ./cmd/sxdiff"}, False)
         return False
+    # the same harness with the Go race detector compiled in (real code and harness alike): see race_pass
+    cfg = registry.PROPS.get(ctx.pid, {})
+    if any((c[0] if isinstance(c, tuple) else c) in registry.RACE_COMPONENTS for c in cfg.get("components", [])):
+        rc, out, _ = sh(["go", "build", "-race", "-tags", "verif", "-o", "bin/sxdiff-race", "./cmd/sxdiff"], cwd=HARN,
+                        env=dict(GOENV, CGO_ENABLED="1"))
+        ctx.have_race = rc == 0
+        if rc != 0:
+            ctx.notes.append("race-enabled harness did not build: the race pass is skipped (%s)" % out[-300:])
     return True
+
+
+def race_pass(ctx, comp):
+    """The component once more, on the same seed, with the Go race detector compiled into the real code: schedules are
+    sampled, but the detector reports two unsynchronised accesses even when THIS run happened to order them
+    harmlessly — the concrete failing schedule of a 'works unless two workers meet' change.  A report is a violation
+    with a failing input: component + seed re-run it, the goroutine stacks are in the replay file."""
+    if not getattr(ctx, "have_race", False):
+        return
+    logp = os.path.join(ctx.work, "race-" + comp)
+    for f in glob.glob(logp + ".*"):
+        os.remove(f)
+    cmd = [os.path.join(HARN, "bin", "sxdiff-race"), comp, "-seed", str(ctx.seed), "-tier", "quick",
+           "-cases", os.path.join(ctx.work, comp + ".race.cases"), "-stats", os.path.join(ctx.work, comp + ".race.stats.json")]
+    env = dict(GOENV, GOMEMLIMIT="8GiB", VERIF_WORK=ctx.work, VERIF_REPO=REPO, VERIF_RACE="1",
+               GORACE="log_path=%s halt_on_error=0 history_size=3" % logp)
+    rc, out, dt = sh(cmd, cwd=ctx.work, env=env, timeout=900)
+    try:
+        os.remove(os.path.join(ctx.work, comp + ".race.cases"))
+    except OSError:
+        pass
+    reports = sorted(glob.glob(logp + ".*"))
+    nrep = 0
+    for f in reports:
+        txt = open(f, errors="replace").read()
+        for rep in txt.split("==================")[1:]:
+            if "DATA RACE" not in rep:
+                continue
+            nrep += 1
+            if nrep <= 2:
+                # the frames of /repo (not of the harness) name the racing code
+                frames = [l.strip() for l in rep.split("\n") if "/repo/" in l or "v-byte-cpu/sx/" in l][:12]
+                ctx.violation("spec", "%s: data race in the real code under the race detector" % comp,
+                              {"component": comp, "race": True, "where": frames, "report": rep[:6000],
+                               "rerun": "harness/bin/sxdiff-race %s -seed %d -tier quick (GORACE=halt_on_error=1)" % (comp, ctx.seed)}, True)
+    ctx.coverage["components"].setdefault(comp, {})["race_pass"] = {"reports": nrep, "harness_s": round(dt, 2), "rc": rc}
+    ctx.log("component %-12s race pass: %d report(s) (%.1fs)" % (comp, nrep, dt))
 
 
 THEOREM_RE = re.compile(r"^theorem\s+([A-Za-z0-9_'.]+)", re.M)
@@ -274,6 +319,8 @@ def run_component(ctx, comp, extra_args=None):
                                "notes": st.get("notes", [])}
     ctx.log("component %-12s cases=%d classes=%d disagreements=%d spec_failures=%d (%.1fs+%.1fs)" %
             (comp, st["evaluations"], st["distinct_nontrivial"], ndis, nspec, dt, dt2))
+    if comp in registry.RACE_COMPONENTS and not extra_args and not os.environ.get("VERIF_SEARCH"):
+        race_pass(ctx, comp)
 
 
 def default_search(ctx, broken):
